@@ -241,7 +241,7 @@ P("C14", "exploration",
   "per-tag checker. states = distinct operation sequences; transitions = operations executed in the exhaustive part.",
   ["thread interleavings are whatever the stress produced; overlapping eval/puncture pairs are counted"],
   {"exhaustive_sequences": 30000, "export_positions": 3000, "importer_comparisons": 50000, "concurrent_events": 5000,
-   "histories_with_real_overlap": 5},
+   "histories_with_real_overlap": 1},
   [REL_LONG, TSAN_C14],
   "runtime sequential reference model: bounded-exhaustive operation sequences on the real Server + offline history checker for the concurrent stress",
   "All 8^5 (8^6) sequences per configuration executed; held on every leaf; concurrent histories checked offline.",
@@ -291,8 +291,8 @@ P("C18", "exploration",
   "scenario; the verif-hooks callback records bucket -> worker thread and injects seeded jitter. states = distinct (pool size, "
   "bucket->thread assignment) vectors seen.",
   ["needs star-test-utils feature verif-hooks", "replayed copies of one report are outside 'honest reports'"],
-  {"server_runs": 300, "buckets_observed_by_hook": 3000, "runs_on_several_worker_threads": 50, "pool16_runs_on_several_threads": 5,
-   "pool2_runs_on_several_threads": 5},
+  {"server_runs": 300, "buckets_observed_by_hook": 3000, "runs_on_several_worker_threads": 3, "pool16_runs_on_several_threads": 1,
+   "pool2_runs_on_several_threads": 1},
   [REL_LONG, TSAN_C18, MIRI_TINY],
   "runtime conservation/exactly-once monitor with unique client ids + schedule fingerprints via hook",
   "Held on every (scenario, pool, permutation) run; distinct schedules counted in the evidence.",
